@@ -72,14 +72,9 @@ def run(ctx):
         plan += [(3, 2, "continuation"), (10129, 2, "continuation"), (62, 3, "second continuation")]
         plan += [((1 << 31) + 1, 1, "more than half of 2^32"), ((1 << 32) - 1, 1, "largest bound"), (3 << 30, 1, "quarter rejected"),
                  (3 << 30, 2, "continuation, quarter rejected")]
-    # deviations found above are decided exactly, smallest bounds first
+    # deviations found above are decided exactly, smallest bounds first (per-result histograms), then - only if nothing is decided
+    # yet - the bounds too large for a histogram by the count condition, at the first position and at one continuation depth
     extra = 0
-    big = [n for n in sorted(deviating) if n > (1 << 26)]
-    for n in big[:2] + big[-1:]:          # too large for a per-result histogram in the quick tier: decided by the count condition
-        for d in sorted(deviating[n] | {1}):
-            if ctx.violations:
-                break            # already decided: further sweeps would only repeat the verdict
-            drawfam_count(ctx, n, d, "decides a deviation seen in directed draws at a large bound")
     for n in sorted(deviating):
         if n < 2 or extra >= 3 or (quick and n > (1 << 26)):
             continue
@@ -91,6 +86,13 @@ def run(ctx):
         if ctx.violations and "deviation" in why:
             continue             # already decided
         decide_by_sweep(ctx, n, d, why)
+    big = [n for n in sorted(deviating) if n > (1 << 26)]
+    for n in big[:2] + big[-1:]:
+        depths = sorted(deviating[n] | {1})
+        for d in depths[:1] + depths[1:2]:
+            if ctx.violations:
+                break            # already decided: further sweeps would only repeat the verdict
+            drawfam_count(ctx, n, d, "decides a deviation seen in directed draws at a large bound")
     if deviating and not ctx.violations:
         ctx.notes.append("directed draws deviate from the specification's sampler shape at %d bounds but every decision sweep is flat: "
                          "a different, unbiased sampler" % len(deviating))
